@@ -5,7 +5,7 @@
 //! specification.  Only violations *at gc steps* belong to this property (the others are C07's).
 #[path = "c07/mvcc.rs"]
 mod mvcc;
-use mvcc::{parse, render, run_real, Op};
+use mvcc::{parse, render, Op};
 use serde_json::json;
 use vharness::{driver, Args, Known, Report, Rng};
 
@@ -24,22 +24,40 @@ fn base_alphabet(step: usize) -> Vec<Vec<Op>> {
     ]
 }
 
-fn bases(len: usize, out: &mut Vec<Vec<Op>>) {
-    fn go(len: usize, cur: &mut Vec<Op>, steps: usize, out: &mut Vec<Vec<Op>>) {
+/// alphabet of the family "gc against registered write sets and finished transactions"
+fn txn_alphabet(step: usize) -> Vec<Vec<Op>> {
+    let v = step as i64 + 30;
+    vec![
+        vec![Op::Begin(true)],
+        vec![Op::Begin(false)],
+        vec![Op::WriteNode(1, 1)],
+        vec![Op::WriteNode(2, 1)],
+        vec![Op::WriteEdge(1, 1)],
+        vec![Op::SetProp(1, 0, v)],
+        vec![Op::SetEdge(1, 0, v)],
+        vec![Op::Bump],
+        vec![Op::Commit(1)],
+        vec![Op::Commit(2)],
+        vec![Op::Abort(1)],
+    ]
+}
+
+fn bases(len: usize, txn_family: bool, out: &mut Vec<Vec<Op>>) {
+    fn go(len: usize, txn_family: bool, cur: &mut Vec<Op>, steps: usize, out: &mut Vec<Vec<Op>>) {
         if steps == len {
             out.push(cur.clone());
             return;
         }
-        for l in base_alphabet(steps) {
+        for l in if txn_family { txn_alphabet(steps) } else { base_alphabet(steps) } {
             let n = l.len();
             cur.extend(l);
-            go(len, cur, steps + 1, out);
+            go(len, txn_family, cur, steps + 1, out);
             for _ in 0..n {
                 cur.pop();
             }
         }
     }
-    go(len, &mut vec![], 0, out);
+    go(len, txn_family, &mut vec![], 0, out);
 }
 
 /// current version after each prefix of `ops` (prefix of length i -> cur), by the rule of the code
@@ -94,6 +112,12 @@ fn random_case(rng: &mut Rng) -> Vec<Op> {
             Op::Commit(1 + rng.below(begun))
         } else if r < 72 && begun > 0 {
             Op::Abort(1 + rng.below(begun))
+        } else if r < 75 && begun > 0 {
+            if rng.chance(1, 3) {
+                Op::WriteEdge(1 + rng.below(begun), 1)
+            } else {
+                Op::WriteNode(1 + rng.below(begun), 1 + rng.below(2))
+            }
         } else if r < 78 {
             Op::RemoveProp(1, rng.below(2))
         } else if r < 82 {
@@ -150,7 +174,7 @@ fn main() {
         let l = 4;
         let mut bs = vec![];
         for k in 1..=l {
-            bases(k, &mut bs);
+            bases(k, false, &mut bs);
         }
         for (pi, prefix) in [
             vec![Op::CreateNode(1), Op::CreateNode(1), Op::CreateEdge(1, 2, vec![(0, 9)])],
@@ -160,8 +184,8 @@ fn main() {
         .enumerate()
         {
             for (bi, b) in bs.iter().enumerate() {
-                // quick tier: the longest bases are sampled (1 in 3, rotating with the seed)
-                if !args.thorough() && b.len() == l && (pi == 1 || (bi as u64 + args.seed) % 3 != 0) {
+                // quick tier: the longest bases are sampled (1 in 6, rotating with the seed)
+                if !args.thorough() && b.len() == l && (pi == 1 || (bi as u64 + args.seed) % 6 != 0) {
                     continue;
                 }
                 let mut full = prefix.clone();
@@ -181,12 +205,51 @@ fn main() {
                 }
             }
         }
+        // family "gc against registered write sets and finished transactions": the entities have
+        // two versions before the transactions start
+        let n_main = seqs.len() - before;
+        let tprefix = vec![
+            Op::CreateNode(1),
+            Op::CreateNode(1),
+            Op::CreateEdge(1, 2, vec![(0, 9)]),
+            Op::SetEdge(1, 0, 1),
+            Op::Bump,
+            Op::SetProp(1, 0, 2),
+            Op::SetEdge(1, 0, 2),
+        ];
+        let mut tbs = vec![];
+        for k in 1..=4 {
+            bases(k, true, &mut tbs);
+        }
+        for (bi, b) in tbs.iter().enumerate() {
+            if b.len() == 4 && (!args.thorough() || (bi as u64 + args.seed) % 4 != 0) {
+                continue; // length 4: thorough tier only, 1 in 4
+            }
+            let mut full = tprefix.clone();
+            full.extend(b.iter().cloned());
+            let curs = cur_after(&full);
+            for pos in tprefix.len() + 1..=full.len() {
+                let cur = curs[pos];
+                let mut gcs: Vec<Op> = (0..=cur + 1).map(Op::Gc).collect();
+                gcs.push(Op::GcAuto);
+                for g in gcs {
+                    let mut s = full[..pos].to_vec();
+                    s.push(g);
+                    s.extend(full[pos..].iter().cloned());
+                    seqs.push(s);
+                }
+            }
+        }
+        rep.count_n("family:main", n_main as u64);
+        rep.count_n("family:txn_write_sets", (seqs.len() - before - n_main) as u64);
         rep.exhaustive = true;
         rep.exhaustive_note = format!(
             "{} histories: two creation prefixes (relationship created with / without properties, at version 1 / 2) x every base \
-             history of up to {} steps (quick tier: all up to one less, a third of the longest) over {{set node prop, set rel prop, bump, begin SI, begin RC, commit 1, remove prop, add label, \
-             abort 2}} x gc_versions(w) for every w in 0..=cur+1 and gc_auto at every position; plus PRNG histories with several gcs \
-             (not exhaustive)",
+             history of up to {} steps (quick tier: all up to one less, a sixth of the longest) over {{set node prop, set rel prop, bump, begin SI, begin RC, commit 1, remove prop, add label, \
+             abort 2}} x gc_versions(w) for every w in 0..=cur+1 and gc_auto at every position; the same gc insertion over every base history of up to 3 \
+             steps (thorough: a quarter of those of 4) over {{begin SI, begin RC, txn_write_node(1,n1), txn_write_node(2,n1), \
+             txn_write_edge(1,r1), set node prop, set rel prop, bump, commit 1, commit 2, abort 1}} after a prefix that gives node and \
+             relationship two versions; plus PRNG histories with several gcs and registered write sets (not exhaustive)",
             seqs.len() - before,
             l
         );
@@ -200,13 +263,8 @@ fn main() {
     let mut first_break: Option<String> = None;
     for chunk in seqs.chunks(100_000) {
         let rendered: Vec<String> = chunk.iter().map(|s| render(s)).collect();
-        let real: Vec<String> = chunk
-            .iter()
-            .map(|s| {
-                std::panic::catch_unwind(std::panic::AssertUnwindSafe(|| run_real(s, None, &mut None)))
-                    .unwrap_or_else(|_| "PANIC".to_string())
-            })
-            .collect();
+        let ran = mvcc::run_all(chunk, 12, 0, true);
+        let real: Vec<&String> = ran.iter().map(|r| &r.0).collect();
         let mut lines = Vec::with_capacity(chunk.len() * 2);
         for (r, o) in rendered.iter().zip(real.iter()) {
             lines.push(format!("run {}", r));
@@ -216,7 +274,7 @@ fn main() {
         for (k, ops) in chunk.iter().enumerate() {
             let m = &replies[2 * k];
             let s = &replies[2 * k + 1];
-            let nt = mvcc::nontrivial(ops, true);
+            let nt = ran[k].2;
             rep.case(&rendered[k], nt);
             if nt && rep.samples.len() < 3 {
                 rep.sample(json!({"ops": rendered[k], "impl_obs_last": real[k].rsplit(';').next()}));
